@@ -722,6 +722,43 @@ func (g *gen) c12ziplist(max int, pairs bool, scores bool) []c12ZlEntry {
 	return es
 }
 
+// c12farLzf: a ziplist with one long entry whose LZF form holds a back reference over a chosen distance — around 4096 (13-bit
+// offsets use a fifth bit in the control byte), up to the format's maximum 8192 — of every length class
+func (g *gen) c12farLzf() string {
+	dist := []int{255, 256, 257, 4094, 4095, 4096, 4097, 4098, 5000, 6143, 6144, 8190, 8191, 8192}[g.r.Intn(14)]
+	ml := []int{3, 4, 8, 9, 10, 100, 263, 264}[g.r.Intn(8)]
+	if ml > dist {
+		ml = dist
+	}
+	a := g.bytes(ml)
+	filler := g.bytes(dist - ml) // A, then filler up to distance `dist`, then A again
+	val := append(append(append([]byte{}, a...), filler...), a...)
+	val = append(val, g.bytes(g.r.Intn(40))...)
+	es := []c12ZlEntry{{head: "s32", s: val}}
+	if g.r.Intn(2) == 0 {
+		es = append(es, c12ZlEntry{head: "i4", v: 7})
+	}
+	blob := serZiplist12(es)
+	// tokens: the blob up to the second copy of A as literals, the copy as ONE reference, the rest as literals
+	start := 10 + 1 + 5 + len(a) + len(filler) // ziplist header, prevlen, s32 header
+	var toks []string
+	lit := func(b []byte) {
+		for len(b) > 0 {
+			n := 1 + g.r.Intn(32)
+			if n > len(b) {
+				n = len(b)
+			}
+			toks = append(toks, "l"+hx(b[:n]))
+			b = b[n:]
+		}
+	}
+	lit(blob[:start])
+	toks = append(toks, fmt.Sprintf("r%d.%d", len(a)+len(filler), ml))
+	lit(blob[start+ml:])
+	comp := serToks12(strings.Join(toks, "+"))
+	return fmt.Sprintf("cmp 10 z%s-%s:%s %s", c12WiderForm(g.r, len(comp)), c12WiderForm(g.r, len(blob)), strings.Join(toks, "+"), c12EntriesText(es))
+}
+
 // c12bigZiplist: entry counts around the point where the 16-bit count field saturates (65535 = "walk the entries")
 func (g *gen) c12bigZiplist() string {
 	n := []int{65534, 65535, 65536, 65537, 65535 + g.r.Intn(9000), 131072}[g.r.Intn(6)]
@@ -1220,6 +1257,10 @@ func genC12(g *gen) {
 	n = g.pick(1800, 80000)
 	for i := 0; i < n; i++ {
 		g.emit("%s", g.c12cmp())
+	}
+	// LZF back references over long distances
+	for i, nb := 0, g.pick(40, 400); i < nb; i++ {
+		g.emit("%s", g.c12farLzf())
 	}
 	// ziplists whose 16-bit count field saturates
 	for i, nb := 0, g.pick(4, 24); i < nb; i++ {
